@@ -80,11 +80,13 @@ class Interp:
     def oblige(self, label, state, goal, node=None, note="", structural=False):
         if goal is True and not structural:
             return
+        concrete = isinstance(goal, bool)
         if goal is True:
             goal = z3.BoolVal(True)
         fn = ".".join(self.cur[-1]) if self.cur else "?"
         ob = Obligation(f"{fn}/{label}", state.pc, goal,
                         line=getattr(node, "lineno", None), note=note)
+        ob.concrete = concrete
         self.obligations.append(ob)
 
     def feasible(self, state, cond=None):
@@ -278,6 +280,8 @@ class Interp:
             return [Outcome("fall", state)]
         if isinstance(s, ast.Raise):
             name = "Exception"
+            if s.exc is None and state.ghost.get("__exc__") is not None:
+                return [Outcome("raise", state, state.ghost["__exc__"])]   # bare `raise`: re-raise the caught exception
             if s.exc is not None:
                 e = s.exc.func if isinstance(s.exc, ast.Call) else s.exc
                 name = ast.unparse(e)
@@ -351,7 +355,11 @@ class Interp:
                             any(exc.split(".")[-1] == n.split(".")[-1] for n in names):
                         if h.name:
                             o.state.env[h.name] = Opaque("exception", exc=exc)
-                        res += self.exec_block(h.body, o.state, module)
+                        o.state.ghost["__exc__"] = o.value
+                        hres = self.exec_block(h.body, o.state, module)
+                        for ho in hres:
+                            ho.state.ghost["__exc__"] = None
+                        res += hres
                         handled = True
                         break
                 if not handled:
@@ -383,7 +391,8 @@ class Interp:
             for o in outs:
                 tr = o.state.ghost.get("fs")
                 if tr is not None and isinstance(v, Opaque) and v.tag == "file":
-                    o.state.ghost["fs"] = tr + [("close", v.info.get("path"))]
+                    pth = v.info.get("path")
+                    o.state.ghost["fs"] = tr + [("close", pth.info.get("pid") if isinstance(pth, Opaque) else pth)]
             return outs
         return self.eval_forking(it.context_expr, state, module, k)
 
